@@ -23,13 +23,16 @@ func c14WipeEmptyNamespace(r *mon.Run) {
 		localIdentity bool // T has its own identity (so only the bug namespace is empty)
 		localBug      bool // T has a bug of its own (control: no namespace is empty)
 		remote        string
+		alias         string // a second name of the same URL, fetched through as well ("": none)
 	}
 	for _, v := range []variant{
-		{"no-local-bug", true, false, "origin"}, {"nothing-local", false, false, "origin"}, {"control-with-local-bug", true, true, "origin"},
+		{"no-local-bug", true, false, "origin", ""}, {"nothing-local", false, false, "origin", ""}, {"control-with-local-bug", true, true, "origin", ""},
 		// the same with remote names that are not one plain word (the keys of the variants above are unchanged)
-		{"no-local-bug:remote-name=slash", true, false, "team/alice"}, {"nothing-local:remote-name=multi-slash", false, false, "a/b/c"},
-		{"nothing-local:remote-name=ns-word", false, false, "bugs"}, {"no-local-bug:remote-name=ns-word", true, false, "identities"},
-		{"no-local-bug:remote-name=dot+dash", true, false, "my.up-stream"},
+		{"no-local-bug:remote-name=slash", true, false, "team/alice", ""}, {"nothing-local:remote-name=multi-slash", false, false, "a/b/c", ""},
+		{"nothing-local:remote-name=ns-word", false, false, "bugs", ""}, {"no-local-bug:remote-name=ns-word", true, false, "identities", ""},
+		{"no-local-bug:remote-name=dot+dash", true, false, "my.up-stream", ""},
+		// the same with two names of one URL (origin and upstream of one project), the entities fetched through both
+		{"no-local-bug:remote-config=shared-url", true, false, "origin", "upstream"}, {"nothing-local:remote-config=shared-url", false, false, "upstream", "mirror"},
 	} {
 		func() {
 			dir := world.ScratchDir("c14-empty-")
@@ -84,6 +87,16 @@ func c14WipeEmptyNamespace(r *mon.Run) {
 				r.Inconclusive("wipe empty namespace: fetch: " + err.Error())
 				return
 			}
+			if v.alias != "" {
+				err := T.Tested.AddRemote(v.alias, origin.Tested.GetLocalRemote())
+				if err == nil {
+					err = T.Fetch(v.alias)
+				}
+				if aliased, _ := gitraw.RefTable(T.Repo, "refs/remotes/"+v.alias+"/"); err != nil || len(aliased) < 3 {
+					r.Inconclusive(fmt.Sprintf("wipe empty namespace: second name of the URL: %v, %d remote-tracking refs", err, len(aliased)))
+					return
+				}
+			}
 			before, _ := gitraw.RefTable(T.Repo, "refs/remotes/"+v.remote+"/")
 			if len(before) < 3 {
 				r.Inconclusive(fmt.Sprintf("wipe empty namespace: only %d remote-tracking refs after the fetch", len(before)))
@@ -101,7 +114,7 @@ func c14WipeEmptyNamespace(r *mon.Run) {
 			defer nrep.Repo.Close()
 			r.Case("wipe-empty-namespace/"+v.name, true)
 			r.Count("wipe_with_empty_namespace_runs", 1)
-			cp := map[string]any{"kind": "wipe-empty-namespace", "variant": v.name, "remote": v.remote}
+			cp := map[string]any{"kind": "wipe-empty-namespace", "variant": v.name, "remote": v.remote, "second_name_of_the_url": v.alias}
 			if runErr != nil {
 				r.Violation("wipe:empty-namespace:command-failed:"+v.name, fmt.Sprintf("git-bug wipe failed: %v: %s", runErr, strings.TrimSpace(string(out))), cp)
 				return
